@@ -101,14 +101,17 @@ CHECKS = {
         design="4/C18",
     ),
     "C01": dict(
-        specs=["ExtractR.tla", "Extract.tla", "ExtractIO.tla"],
+        specs=["ExtractR.tla", "Extract.tla", "ExtractIO.tla", "Cli.tla"],
         text="Extract.tla models iter_beacon_config_blocks/from_file as a state machine (decoded view of a detected XorEncoded "
         "stage first, then the file, then the all-keys retry over the left-over keys in an arbitrary order; one action per "
         "phase and key, first yield wins) and TLC checks for every scenario (container x planted block sequence x key list x "
         "all-keys) that its result is an answer ExtractR allows (key-priority then file order; ValueError iff none). The same "
         "scenario table is concretised by the harness into raw / PE / XorEncoded payloads with the block at offset 0, at every "
         "offset -7..+1 around read-buffer boundaries, mid-file and at EOF, under three buffer sizes and four filler classes, and "
-        "run through from_bytes / from_file / from_path.",
+        "run through from_bytes / from_file / from_path. Cli.tla is beacon-dump (beacon.main) as a state machine over the files "
+        "named on the command line, -x keys, --default-xor-keys-only and the output type: exit status 0 iff a file was dumped, every "
+        "file reported exactly once and in order, only blocks ExtractR allows; the loop that stops at the first miss is rejected; "
+        "every command line of the dumped graph is run through the real main() (files, stdin) and its stdout/stderr/exit compared.",
         note="Trusted: TLC, ExtractR.Allowed, the harness concretiser; each concrete payload's assumptions (header pattern occurs "
         "under any of 256 keys exactly at the planted offsets, in both views) are verified by brute force independent of the "
         "library, else the scenario is regenerated. Order of left-over keys in all-keys mode is left open.",
